@@ -18,6 +18,8 @@ def run(ctx: Ctx) -> None:
         scs.append(qf.gen_c13_bigcache(rng, 'c13b-%d' % k, ctx.thorough))
     for k in range(ctx.pick(200, 4000)):
         scs.append(qf.gen_c13_suppress(rng, 'c13s-%d' % k, ctx.thorough))
+    for k in range(ctx.pick(12, 200)):
+        scs.append(qf.gen_c13_history(rng, 'c13h-%d' % k, ctx.thorough))
     for k in range(ctx.pick(100, 1500)):
         scs.append(qf.gen_c10(rng, 'c13r-%d' % k, ctx.thorough))
     run_traces(ctx, OWN, scs)
